@@ -118,6 +118,21 @@ def gen_c01(tier, seed):
                 t.append(node(path + "/l", "Symlink", target="../f", mt=rng.choice(cvlib.MTIMES)))
         scens.append({"id": sid("C01", "deep", i), "props": ["C01"], "mode": "clean", "tags": ["deep"],
                       "steps": [{"op": "tree", "tree": t}, bk(rand_opts(rng)), {"op": "restore", "band": 0}, {"op": "list", "band": 0}]})
+    # very deep nesting and very long names (255 bytes, the file-system limit)
+    for i in range(3 if tier == "quick" else 20):
+        t = [node("/", "Dir")]
+        path = ""
+        for d in range(rng.choice([25, 40, 60])):
+            path += "/" + rng.choice(["d", "é", "a.b", "-", "zz"])
+            t.append(node(path, "Dir"))
+            if d % 7 == 3:
+                t.append(node(path + "/f", "File", cvlib.rand_content(rng, 5), mt=(1600010000 + d, 0)))
+        long1 = "n" * 255
+        long2 = "é" * 127
+        t += [node("/" + long1, "File", b"\x01\x02"), node("/" + long2, "Dir"), node("/" + long2 + "/" + long1[:200], "File", b"\x03")]
+        scens.append({"id": sid("C01", "deeplong", i), "props": ["C01"], "mode": "clean", "tags": ["deep", "long-names"],
+                      "steps": [{"op": "tree", "tree": t}, {"op": "walk"}, bk(rand_opts(rng)), {"op": "restore", "band": 0}, {"op": "list", "band": 0},
+                                {"op": "restore", "band": 0, "subtree": path}]})
     for i, (kind, t, o) in enumerate(c01_value_trees(rng, tier)):
         scens.append({"id": sid("C01", kind, i), "props": ["C01"], "mode": "clean", "tags": [kind],
                       "steps": [{"op": "tree", "tree": t}, bk(o), {"op": "restore", "band": 0}]})
